@@ -93,6 +93,8 @@ def cases(tier, seed):
         cs.append({'kind': 'cli', 'seed': rng.randrange(1 << 30), 'i': i})
     for i in range(6 if tier == 'quick' else 60):
         cs.append({'kind': 'cli-multi', 'seed': rng.randrange(1 << 30), 'threads': [1, 2][i % 2]})
+    for i in range(4 if tier == 'quick' else 20):
+        cs.append({'kind': 'cli-multi', 'seed': rng.randrange(1 << 30), 'threads': 1, 'pre_pair': ['rel-first', 'pre-first'][i % 2]})
     return cs
 
 
@@ -259,6 +261,18 @@ def run_cli_multi(c):
     rng = random.Random(c['seed'])
     prod, prefix, fmt = rng.choice([('OpenSSH', '', 'OpenSSH_%s'), ('Dropbear', 'd', 'dropbear_%s')])
     versions = rng.sample(['5.3', '6.6', '7.4', '8.5', '9.9', '10.0', '12.1'] if prod == 'OpenSSH' else ['0.52', '2012.55', '2016.74', '2020.81', '2022.83', '2013.58'], 3)
+    if c.get('pre_pair'):
+        # a Dropbear release in which something first appeared and a pre-release ("testN") of the same number in one run, in either order: the pre-release is older than the release, whichever is scanned first
+        prod, prefix, fmt = 'Dropbear', 'd', 'dropbear_%s'
+        # ... among the releases in which an algorithm this check can judge (rated clean, not advertised by the peers below) first appeared
+        thrs = sorted({since_versions(e, 'd') for cat in ('kex', 'key', 'enc') for name, e in SSH2_KexDB.MASTER_DB[cat].items()
+                       if not ((len(e) > 1 and e[1]) or (len(e) > 2 and e[2])) and since_versions(e, 'd') and name != 'aes128-ctr'
+                       and not ('-cert-' in name or name.startswith(('sk-', 'ext-info', 'kex-strict', 'chacha20')) or '-cbc' in name)})
+        thr = rng.choice(thrs)
+        versions = [thr, thr + 'test%d' % rng.randint(1, 3)]
+        if c['pre_pair'] == 'pre-first':
+            versions.reverse()
+        versions.append('2012.55')
     db = SSH2_KexDB.MASTER_DB
     adv = {'kex': ['diffie-hellman-group14-sha1'], 'key': ['ssh-dss'], 'enc': ['aes128-ctr'], 'mac': ['hmac-sha2-256']}
     targets = []
@@ -285,11 +299,12 @@ def run_cli_multi(c):
                 fv = since_versions(e, prefix)
                 if not fv:
                     continue
-                tv, tw = vt(fv), vt(t.name)
+                pre = 'test' in t.name
+                tv, tw = vt(fv), vt(t.name.split('test')[0])
                 m = min(len(tv), len(tw))
                 if tv[:m] == tw[:m] and len(tv) != len(tw):
                     continue
-                want = tw >= tv
+                want = tw >= tv and not (pre and tw == tv)
                 n += 1
                 if ((cat, name) in added) != want:
                     viol.append(_v('C14/availability-wrong:multi-target', 'in a multi-target run an algorithm\'s availability for a target does not follow that target\'s numeric version', product=prod, target_version=t.name, versions_in_run=versions,
@@ -300,7 +315,7 @@ def run_cli_multi(c):
         if v['key'] not in seen:
             seen.add(v['key'])
             uniq.append(v)
-    return uniq, {'cli_runs': 1, 'multi_target_availability_checks': n}, n > 0
+    return uniq, {'cli_runs': 1, 'multi_target_availability_checks': n, 'release_and_prerelease_in_one_run': 1 if c.get('pre_pair') else 0}, n > 0
 
 
 def run_case(c):
